@@ -64,19 +64,31 @@ def build_jobs(tier, seed):
     j = Job("C18.chooseNumberOfLevels", unit(rules, hashes), "P", unwind=34, timeout=900, bounded=None,
             functions=["GMGPolar::chooseNumberOfLevels"], covers={"COVER:reached_end"})
     j.rules, j.hashes = rules, hashes
-    return [j]
+    import gridgen
+    return [j] + gridgen.build_jobs(tier, seed)
 
 
 EXPLANATION = (
     "Contract from the property statement enforced on the verbatim body of GMGPolar::chooseNumberOfLevels for every 32-bit grid size "
     "and level cap (loops are width-bounded: unwinding 34 with unwinding assertions is complete): the reported level count admits "
     "that many coarsenings (odd nr / even ntheta on every level but the coarsest, ntheta % 4 == 0 on smoothing levels), the coarsest "
-    "grid has >= 5 x 4 nodes, the cap is respected, an exception is raised exactly when no two-level hierarchy exists. The rest of "
-    "C18 (radial/angular division, anisotropic refinement, midpoint nesting, file round trip) is C++ container / stream code outside "
-    "the extractor and is NOT decided.")
+    "grid has >= 5 x 4 nodes, the cap is respected, an exception is raised exactly when no two-level hierarchy exists. "
+    "Grid generation (props/gridgen.py, Layer R, BOUNDED in the exponents nr_exp <= 4 (5), ntheta_exp, divideBy2 <= 2 (3); 0 < R0 < Rmax "
+    "symbolic reals): the verbatim bodies of constructRadialDivisions (uniform branch), constructAngularDivisions, refineGrid, divideVector, "
+    "initializeDistances and coarseningGrid over an array + size model of std::vector: radii strictly increasing from exactly R0 to exactly "
+    "Rmax, fine radii are midpoints, angles uniform with antipodes, the grid of one bisection less is the every-second-node subgrid, spacing "
+    "arrays are the coordinate differences, coarsening keeps every second node and both boundaries, every subscript within size. NOT "
+    "decided: anisotropic division (std::set), checkParameters (std algorithms / lambdas), file round trip (iostream), rejection paths.")
 
 
 def levels_replay_cb(job, key, label, rec):
+    if job.name.startswith("gridgen"):
+        import gridgen
+        return gridgen.replay_cb(job, key, label, rec)
+    return levels_replay_cb0(job, key, label, rec)
+
+
+def levels_replay_cb0(job, key, label, rec):
     """grid size and level cap of the SAT counterexample are given to the real GMGPolar::chooseNumberOfLevels"""
     import vlib
     v = vlib.last_values(rec)
@@ -109,11 +121,12 @@ def run(tier, seed, work):
     jobs = build_jobs(tier, seed)
     vlib.run_jobs(jobs, work)
     rep.absorb(jobs, replay_cb=levels_replay_cb)
-    rep.extraction = {"rules_fired": jobs[0].rules.summary(), "body_sha256_16": jobs[0].hashes,
-                      "dropped": ["unused local linear_complexity_levels (std::log / std::ceil)"]}
-    rep.trusted = ["CBMC 6.11 SAT", "32-bit int", "coarseningGrid halves as (nr+1)/2, ntheta/2 (src/PolarGrid/polargrid.cpp)"]
-    rep.assumptions = ["2 <= nr, ntheta <= 2^30"]
-    return rep.finish("other", EXPLANATION, "cbmc unit.c --function harness --unwind 34 --unwinding-assertions")
+    rep.extraction = {"rules_fired": {"chooseNumberOfLevels": jobs[0].rules.summary(), "gridgen": jobs[-1].rules.summary()}, "body_sha256_16": dict(jobs[0].hashes, **jobs[-1].hashes),
+                      "dropped": ["unused local linear_complexity_levels (std::log / std::ceil)", "checkParameters / initializeLineSplitting calls of the generating constructor (order of the helper calls is checked textually)"]}
+    rep.trusted = ["CBMC 6.11 SAT / z3 5.1", "32-bit int", "double treated as mathematical real in grid generation", "array + size model of std::vector<double>",
+                   "pow(2, k), ceil(log2(n)) computed in integers"]
+    rep.assumptions = ["2 <= nr, ntheta <= 2^30 (level choice)", "grid generation bounded in the exponents (listed in the job names)", "anisotropic_factor == 0"]
+    return rep.finish("other", EXPLANATION, "cbmc unit.c --function harness --unwind 34 --unwinding-assertions | cbmc unit.c --z3 (grid generation)")
 
 
 def replay(path):
